@@ -160,6 +160,39 @@ Proof.
   - intros r x H Ht. apply take_while_stop in H. apply ecmp_key_eqb_tied in Ht. congruence.
 Qed.
 
+Lemma find_first_ranked fl net g l e :
+  ranked fl net l -> find g l = Some e ->
+  In e l /\ g e = true /\ forall x, In x l -> g x = true -> not_worse fl net e x.
+Proof.
+  unfold ranked. induction l as [|a r IH]; intros Hs Hf; [discriminate|].
+  cbn [find] in Hf. apply StronglySorted_inv in Hs as [Hr Ha]. destruct (g a) eqn:E.
+  - injection Hf as <-. split; [left; reflexivity|]. split; [exact E|].
+    intros x [<-|Hx] _; [apply not_worse_refl|]. rewrite Forall_forall in Ha. apply Ha, Hx.
+  - destruct (IH Hr Hf) as (Hin & Hg & Hb). split; [right; exact Hin|]. split; [exact Hg|].
+    intros x [<-|Hx] Hgx; [congruence|apply Hb; assumption].
+Qed.
+
+(* the route-server local view: best eligible path of the other RS clients *)
+Lemma C02_rs_local_best :
+  forall shard ops net d peer e,
+    consistent ops ->
+    In (net, d) (t_dests (run (empty_table shard) ops)) ->
+    rs_local peer d = Some e ->
+    In e (d_entries d) /\ eligible e = true /\ s_role (e_src e) = 1 /\ s_addr (e_src e) <> peer
+    /\ forall x, In x (d_entries d) -> eligible x = true -> s_role (e_src x) = 1 -> s_addr (e_src x) <> peer ->
+                 not_worse (t_flags (run (empty_table shard) ops)) net e x.
+Proof.
+  intros shard ops net d peer e Hc Hin Hrs.
+  pose proof (C02_dest_sorted_reachable shard ops net d Hc Hin) as Hr.
+  unfold rs_local in Hrs.
+  destruct (find_first_ranked _ net _ _ _ Hr Hrs) as (Hin' & Hg & Hb).
+  apply andb_true_iff in Hg as [Hg He]. apply andb_true_iff in Hg as [Hrole Hp].
+  apply N.eqb_eq in Hrole. apply negb_true_iff in Hp. unfold from_addr in Hp. apply N.eqb_neq in Hp.
+  repeat split; try assumption.
+  intros x Hx Hex Hrx Hpx. apply Hb; [exact Hx|].
+  rewrite Hrx, Hex. cbn. unfold from_addr. apply N.eqb_neq in Hpx. rewrite Hpx. reflexivity.
+Qed.
+
 (* ---- the statements are not vacuous: a concrete reachable table with three
    candidate paths for one prefix, one of them LLGR-stale *)
 Definition ex_src (tok addr rid role : N) : src := {| s_tok := tok; s_addr := addr; s_rid := rid; s_role := role |}.
